@@ -114,7 +114,7 @@ def _cwrite(wd, shard, ctx, res, only):
                 for vc in ("min", "max", "ramp", "frac", "huge"):
                     cases.append([dtype, ns, C, vc])
     if only is not None:
-        cases = [] if only[0] == "seq" else [only]
+        cases = [] if only[0] in ("seq", "big") else [only]
     hdrs = {}
     for dtype, ns, C, vc in cases:
         vals = _values(nb, dtype, ns * C, vc, ctx.seed)
